@@ -22,7 +22,7 @@ static size_t pick_size(Tape &t) {
     case 3: return SZMAX;
     case 4: return SZMAX - 7;
     case 5: return SZMAX - 8;
-    case 6: return SZMAX / 2 + 1;
+    case 6: return t.coin() ? SZMAX / 2 + 1 : (SZMAX / 3) * 2 + 2 + t.below(16);  // x + x/2 wraps for the latter
     default: return (16u << 20) + 1;  // refused by the backend
   }
 }
@@ -71,6 +71,8 @@ static Fields gen(Tape &t) {
   if (t.chance(1, 2)) { int k = t.range(1, 4); for (int i = 0; i < k; i++) mask |= 1ull << t.below(40); }
   f.kv.emplace_back("faultmask", std::to_string((unsigned long long)mask));
   f.seti("selftest", t.chance(7, 8) ? 0 : 1);
+  // the backend may offer more than malloc and free (its own calloc / realloc / reallocarray): the completion must not depend on it
+  f.seti("backendextras", t.chance(2, 3) ? 0 : 1 + (int)t.below(7));
   return f;
 }
 
@@ -95,12 +97,17 @@ static Verdict check(const Fields &f) {
   UriMemoryManager ms[2];
   for (int k = 0; k < 2; k++) {
     LedgerMM &be = backends[k];
-    be.mm.calloc = nullptr; be.mm.realloc = nullptr; be.mm.reallocarray = nullptr;  // malloc + free only
+    int extras = (int)f.geti("backendextras");
+    if (!(extras & 1)) be.mm.calloc = nullptr;
+    if (!(extras & 2)) be.mm.realloc = nullptr;
+    if (!(extras & 4)) be.mm.reallocarray = nullptr;  // extras == 0: malloc + free only
     be.refuse_above = 16u << 20;
     be.fail_mask = strtoull(f.get("faultmask").c_str(), nullptr, 10);
     be.tag = k ? "backend-1" : "backend-0";
     memset(&ms[k], 0, sizeof ms[k]);
+    UriMemoryManager beBefore = be.mm;
     VF_REQUIRE(uriCompleteMemoryManager(&ms[k], &be.mm) == 0, "uriCompleteMemoryManager failed on a malloc/free backend");
+    VF_REQUIRE(memcmp(&beBefore, &be.mm, sizeof beBefore) == 0, "uriCompleteMemoryManager modified the backend manager it was given as input");
     VF_REQUIRE(ms[k].malloc && ms[k].calloc && ms[k].realloc && ms[k].reallocarray && ms[k].free, "completed manager lacks a function");
   }
   if (f.geti("selftest")) {
